@@ -341,14 +341,17 @@ class ConditionalTypeBinder:
 
             # Remove exact duplicates to save pointless work later, this is
             # a micro-optimization for --allow-redefinition.
+            # Types that differ only in their truthiness restrictions compare equal, but
+            # they are not duplicates: keeping only the first one would lose the other branch.
             seen_types = set()
             resulting_types = []
             for rv in resulting_values:
                 assert rv is not None
-                if rv.type in seen_types:
+                seen_key = (rv.type, rv.type.can_be_true, rv.type.can_be_false)
+                if seen_key in seen_types:
                     continue
                 resulting_types.append(rv.type)
-                seen_types.add(rv.type)
+                seen_types.add(seen_key)
 
             type = resulting_types[0]
             declaration_type = get_proper_type(self.declarations.get(key))
